@@ -876,48 +876,122 @@ def rule_undo_bytes_value(ctx, cfg, r):
         r.ok(f.name, "value", "for all num_bits in 0..=64 and the max grid: result = min(num_bits / 8, max), num_bits -= 8 * result, nothing else written")
 
 
+def _eval_env(terms_, is_nb):
+    """compile terms over shared leaves: the designated num_bits load -> 'nb', every other leaf -> its own variable.
+    -> (functions, leaf list) or None"""
+    import termeval
+    names = {}
+
+    def leaf(q):
+        if is_nb(q):
+            return "nb"
+        if q not in names:
+            names[q] = "v%d" % len(names)
+        return names[q]
+    try:
+        exprs = [termeval.compile_term(t, leaf) for t in terms_]
+    except Exception:
+        return None
+    args = ["nb"] + [names[q] for q in names]
+    if len(args) > 4:
+        return None
+    return [termeval.make_fn(e, args) for e in exprs], list(names)
+
+
+def inline_undo(v, is_nb):
+    """(k, M) when the term `v` (the value num_bits is left with) equals nb - 8 * k with k = min(nb >> 3, M) for every nb in 0..=64
+    and sample values of the other leaves — the hand-back of whole look-ahead bytes written out in place instead of through undo_bytes"""
+    import itertools
+    for k in [q for q in paths.subterms(v) if q[0] == "pure" and q[1] == "min" and len(q[2]) == 2]:
+        for a, m in ((k[2][0], k[2][1]), (k[2][1], k[2][0])):
+            env = _eval_env([v, k, a, m], is_nb)
+            if env is None:
+                continue
+            (fv, fk, fa, fm), others = env
+            if paths.term_contains(m, is_nb):
+                continue
+            good = True
+            for vals in itertools.product((0, 1, 3, 8, 100), repeat=len(others)):
+                for nb in range(0, 65):
+                    mv = fm(nb, *vals)
+                    if fa(nb, *vals) != nb >> 3 or fk(nb, *vals) != min(nb >> 3, mv) or fv(nb, *vals) != nb - 8 * min(nb >> 3, mv):
+                        good = False
+                        break
+                if not good:
+                    break
+            if good:
+                return k, m
+    return None
+
+
 def rule_blockdone_order(ctx, cfg, r):
-    """R06.1 second half: final block: pad_to_bytes, then undo_bytes(consumed so far), then rebuild in_iter, then mask bit_buf."""
+    """R06.1 second half: after the final block the decoder drops the bits of the partially used byte, hands whole look-ahead bytes back
+    (undo_bytes or the same arithmetic in place), rebuilds the input iterator at consumed - handed back, and masks bit_buf."""
+    import slices
+    import termeval
     M = machine(ctx, cfg)
     c = ctx.crate(cfg)
     fn = M.fn.name
     n = 0
+
+    def is_nb_load(q):
+        return isinstance(q, tuple) and q and q[0] == "load" and paths.place_is_field(q[1], "num_bits", "LocalVars")
     for x in M.arm_rows("BlockDone"):
-        if x.kind == "jump" and x.target in ("DoneForever", "ReadAdler32"):
-            n += 1
-            seq = []
-            for e in x.effects:
-                if e[0] == "enter" and e[1].endswith("pad_to_bytes"):
-                    seq.append("pad")
-                if e[0] == "call" and e[1].endswith("inflate::core::undo_bytes"):
-                    seq.append("undo")
-                if e[0] == "call" and e[1].endswith("InputWrapper::from_slice"):
-                    seq.append("rebuild")
-                pass
-            for k, v in x.store.items():
-                if isinstance(k, tuple) and k and k[0] == "fld" and k[2] == "bit_buf" and k[3].endswith("LocalVars") and \
-                        isinstance(v, tuple) and v[0] == "bin" and v[1] == "BitAnd" and \
-                        paths.term_contains(v[3], lambda y: y[0] == "load" and paths.place_is_field(y[1], "num_bits", "LocalVars") and y[2] != 0):
-                    seq.append("mask")
-            order = [s for s in seq if s in ("pad", "undo", "rebuild", "mask")]
-            if order[:1] == ["pad"] and "undo" in order and "rebuild" in order and \
-                    order.index("undo") < order.index("rebuild") < len(order) and "mask" in order[order.index("rebuild"):]:
-                # the rebuilt iterator starts at consumed - undo
-                fs = [e for e in x.effects if e[0] == "call" and e[1].endswith("InputWrapper::from_slice")]
-                un = [e for e in x.effects if e[0] == "call" and e[1].endswith("inflate::core::undo_bytes")]
-                res = call_res(un[0])
-                idx = [e for e in x.effects if e[0] == "call" and "Index<I> for [T]>::index" in e[1] and e[4] > un[0][4] and e[4] < fs[-1][4]]
-                okk = any(e[2][0] == ("ref", ("deref", P(2)), False) and
-                          paths.term_contains(e[2][1], lambda y: y[0] == "agg" and y[1].endswith("RangeFrom") and y[4][0][0] == "bin" and
-                                              y[4][0][1] == "Sub" and (y[4][0][3] == res or (y[4][0][3][0] == "cast" and y[4][0][3][1] == res)) and
-                                              y[4][0][2] == (un[0][2][1][1] if un[0][2][1][0] == "cast" else un[0][2][1]))
-                          for e in idx)
-                if okk:
-                    r.ok(fn, "blockdone-order", "pad_to_bytes → undo_bytes → in_iter = in_buf[consumed - undo ..] → mask bit_buf")
-                else:
-                    r.fail(fn, "blockdone-rewind", "after the final block the input iterator is not rebuilt at consumed - undo: %s" % tstr(fs[-1][2][0]))
+        if not (x.kind == "jump" and x.target in ("DoneForever", "ReadAdler32")):
+            continue
+        n += 1
+        order = []
+        # pad: read_bits(l, num_bits & 7, ..) — directly or through pad_to_bytes
+        pad_at = None
+        for i, e in enumerate(x.effects):
+            if e[0] == "call" and e[1].endswith("inflate::core::read_bits") and len(e[2]) > 1 and pad_at is None:
+                try:
+                    g = termeval.make_fn(termeval.compile_term(e[2][1], lambda q: "nb" if is_nb_load(q) else (_ for _ in ()).throw(termeval.Unsupported(tstr(q)))), ["nb"])
+                    if all(g(nb) == (nb & 7) for nb in range(0, 65)):
+                        pad_at = i
+                except Exception:
+                    pass
+        if pad_at is not None:
+            order.append("pad")
+        # hand-back: undo_bytes call, or its arithmetic in place
+        undo_at = None
+        res = mx = None
+        for i, e in enumerate(x.effects):
+            if e[0] == "call" and e[1].endswith("inflate::core::undo_bytes") and (pad_at is None or i > pad_at):
+                undo_at, res, mx = i, call_res(e), e[2][1]
+                break
+        if undo_at is None:
+            for k_, v in x.store.items():
+                if isinstance(k_, tuple) and k_ and k_[0] == "fld" and k_[2] == "num_bits" and k_[3].endswith("LocalVars") and isinstance(v, tuple):
+                    nbs = [q for q in paths.subterms(v) if is_nb_load(q)]
+                    for cand in {q for q in nbs}:
+                        iu = inline_undo(v, lambda q, cand=cand: q == cand)
+                        if iu:
+                            res, mx = iu
+                            undo_at = -1
+                            break
+        if undo_at is not None:
+            order.append("undo")
+        fs = [(i, e) for i, e in enumerate(x.effects) if e[0] == "call" and e[1].endswith("InputWrapper::from_slice")]
+        if fs:
+            order.append("rebuild")
+        for k_, v in x.store.items():
+            if isinstance(k_, tuple) and k_ and k_[0] == "fld" and k_[2] == "bit_buf" and k_[3].endswith("LocalVars") and \
+                    isinstance(v, tuple) and v[0] == "bin" and v[1] == "BitAnd" and \
+                    paths.term_contains(v[3], lambda y: y[0] == "load" and paths.place_is_field(y[1], "num_bits", "LocalVars") and y[2] != 0 or
+                                        (y[0] == "pure" and y[1] == "min")):
+                order.append("mask")
+                break
+        if order == ["pad", "undo", "rebuild", "mask"] and (undo_at == -1 or pad_at < undo_at < fs[-1][0]):
+            # the rebuilt iterator starts at consumed - handed back
+            reg = slices.region(fs[-1][1][2][0], store=x.store)
+            okk = reg is not None and reg.root in (P(2), ("deref", P(2))) and reg.off == slices.lsub(slices.lin(mx), slices.lin(res))
+            if okk:
+                r.ok(fn, "blockdone-order", "drop num_bits & 7 bits → hand back min(num_bits / 8, consumed) bytes → in_iter = in_buf[consumed - undo ..] → mask bit_buf")
             else:
-                r.fail(fn, "blockdone-order", "final-block sequence is %s, expected pad, undo, rebuild, mask" % order)
+                r.fail(fn, "blockdone-rewind", "after the final block the input iterator is not rebuilt at consumed - undo: %s" % tstr(fs[-1][1][2][0])[:200])
+        else:
+            r.fail(fn, "blockdone-order", "final-block sequence is %s, expected pad, undo, rebuild, mask" % order)
     if n == 0:
         r.fail(fn, "blockdone-final", "no final-block path found in BlockDone")
 
@@ -1128,11 +1202,15 @@ def rule_override(ctx, cfg, r):
                 v = s.single()
                 adl = (1 - v) if a[1] == "Ne" else v
         if final[0] == "enum" and final[2] == "HasMoreOutput":
+            if sv.single() == ST["HasMoreOutput"]:
+                continue        # the status already was HasMoreOutput: nothing is substituted
             n += 1
-            if sv.single() == ST["NeedsMoreInput"] and full == 1 and adl == 0:
+            others = [k for k, v in ST.items() if sv.contains(v) and k not in ("NeedsMoreInput", "HasMoreOutput")]
+            if sv.contains(ST["NeedsMoreInput"]) and not others and full == 1 and adl == 0:
                 r.ok(fn, "override", "NeedsMoreInput ∧ bytes_left()==0 ∧ state≠ReadAdler32 → HasMoreOutput")
             else:
-                r.fail(fn, "override", "HasMoreOutput substituted outside (NeedsMoreInput ∧ output full ∧ state≠ReadAdler32): %s" % x.describe(8))
+                r.fail(fn, "override", "HasMoreOutput substituted outside (NeedsMoreInput ∧ output full ∧ state≠ReadAdler32)%s: %s"
+                       % ((" — it can replace " + "/".join(others)) if others else "", x.describe(8)))
         elif sv.single() == ST["NeedsMoreInput"] and full == 1 and adl == 0:
             r.fail(fn, "override-missing", "NeedsMoreInput is reported although the output window is full: %s" % x.describe(8))
     if n == 0:
@@ -1157,20 +1235,10 @@ def rule_adler_epilogue(ctx, cfg, r):
         final = ops[0] if ops else None
         sv = vs(x, stt)
         fl = vs(x, ("bin", "BitAnd", P(6), ("int", IGN), "u32"))
-        ign = None
-        need = None
-        zl = None
-        for a, s in x.atoms:
-            if a[0] == "bin" and a[1] in ("Eq", "Ne") and a[2][0] == "bin" and a[2][1] == "BitAnd" and is_const(a[2][3]) and is_const(a[3]) and const_val(a[3]) == 0:
-                m = const_val(a[2][3])
-                v = s.single()
-                setv = (v if a[1] == "Ne" else 1 - v) if v is not None else None
-                if m == IGN:
-                    ign = setv
-                elif m == (ZL | CMP):
-                    need = setv
-                elif m == ZL:
-                    zl = setv
+        mt = mask_tests(x)
+        ign = mt.get((P(6), IGN))
+        need = mt.get((P(6), ZL | CMP))
+        zl = mt.get((P(6), ZL))
         upd = calls_named(x, "shared::update_adler32")
         mism = None
         for a, s in x.atoms:
@@ -2062,6 +2130,62 @@ def rule_handback_mask(ctx, cfg, r):
                    where=first_span(x), path=row_path(x, 6))
     if n < 4:
         r.fail(fn, "handback-mask/rows", "expected at least 4 exit rows that call undo_bytes, found %d" % n)
+
+
+def _is_nb_load(q):
+    return isinstance(q, tuple) and q and q[0] == "load" and paths.place_is_field(q[1], "num_bits", "LocalVars")
+
+
+def handback_in_row(x):
+    """does the row hand whole bytes of the bit buffer back to the input?  -> 'call' (undo_bytes), 'inline' (the same arithmetic on
+    l.num_bits written in place) or None"""
+    if any(e[0] == "call" and e[1].endswith("inflate::core::undo_bytes") for e in x.effects):
+        return "call"
+    for k_, v in x.store.items():
+        if isinstance(k_, tuple) and k_ and k_[0] == "fld" and k_[2] == "num_bits" and k_[3].endswith("LocalVars") and isinstance(v, tuple):
+            for cand in {q for q in paths.subterms(v) if _is_nb_load(q)}:
+                if inline_undo(v, lambda q, cand=cand: q == cand):
+                    return "inline"
+    return None
+
+
+def rule_handback_mask_arms(ctx, cfg, r):
+    """Inside the state machine: an arm that hands look-ahead bytes back (undo_bytes, or the same arithmetic in place) and goes on decoding
+    must clear the handed-back bits — bit_buf &= (1 << num_bits) - 1 with the lowered num_bits — because the next refill ORs fresh input
+    in above num_bits."""
+    from rules.tokens import extraction, uncast
+    M = machine(ctx, cfg)
+    fn = M.fn.name
+    n = 0
+    for arm, x in all_rows(M):
+        if x.kind not in ("jump", "none"):
+            continue
+        hb = handback_in_row(x)
+        if hb is None:
+            continue
+        n += 1
+        v = None
+        nbv = None
+        for k_, val in x.store.items():
+            if isinstance(k_, tuple) and k_ and k_[0] == "fld" and k_[3].endswith("LocalVars"):
+                if k_[2] == "bit_buf":
+                    v = val
+                elif k_[2] == "num_bits":
+                    nbv = val
+        ex = extraction(v) if isinstance(v, tuple) else None
+        good = False
+        if ex:
+            cterm, nterm = uncast(ex[0]), uncast(ex[1])
+            good = cterm[0] == "load" and paths.place_is_field(cterm[1], "bit_buf") and \
+                ((nterm[0] == "load" and paths.place_is_field(nterm[1], "num_bits") and nterm[2] >= 1) or (nbv is not None and nterm == uncast(nbv)))
+        if good:
+            r.ok(fn, "handback-mask/" + arm, "bytes handed back in state %s: bit_buf masked to the lowered num_bits before decoding goes on" % arm)
+        else:
+            r.fail(fn, "handback-mask/" + arm, "state %s hands unread bytes back to the input (num_bits lowered by whole bytes) and continues without masking "
+                   "bit_buf to the new num_bits: the next refill ORs input over the stale bits (bit_buf left as %s)" % (arm, tstr(v)[:80] if v else "unchanged"),
+                   where=first_span(x), path=row_path(x, 6))
+    if n == 0:
+        r.fail(fn, "handback-mask/arms", "no state of the decoder hands bytes back (reference tree: BlockDone on the final block)")
 
 
 # ---------------------------------------------------------------------------------------------- R05.2 panic-site census (array indexing)
